@@ -27,6 +27,7 @@ INTEGS = ["ias15", "whfast", "saba", "eos", "mercurius", "trace", "bs", "janus",
 HARNESS = os.path.join(ROOT, "harness")
 F18A = "F18:served-snapshot-carries-shrunk-last-step-dt"
 F18B = "F18:served-snapshot-torn-by-unlocked-synchronize"
+F19 = "F19:server-started-mid-step-serialises-live-state"
 
 
 # ============================================================================ simulations
@@ -214,88 +215,132 @@ def worker(argv):
     sp = job["spec"]
     sim = make_sim(rebound, sp)
     res = {"ok": False}
-    port = None
-    if job.get("server", True):
-        for attempt in range(6):
-            port = free_port()
-            sim.start_server(port=port)
+    mode = job.get("start", "before")       # before | paused | during : when reb_simulation_start_server is called
+    use_server = job.get("server", True)
+
+    def fail(msg):
+        res["infra"] = msg
+        json.dump(res, open("result.json", "w"))
+        sys.stdout.flush()
+        os._exit(3)
+
+    if shim and use_server:
+        shim.c19_register.argtypes = [ctypes.c_void_p, ctypes.c_long, ctypes.c_long]
+        shim.c19_delays.argtypes = [ctypes.c_uint64, ctypes.c_uint, ctypes.c_uint]
+        shim.c19_count.restype = ctypes.c_long
+        shim.c19_len.restype = ctypes.c_long
+        shim.c19_delays(job["delay_seed"], job["delay_prob"], job["delay_max_us"])
+        # &r->server_data: the shim re-reads it at every event, the server may not exist yet
+        shim.c19_register(ctypes.addressof(sim) + job["offs"]["server_data"], job["offs"]["mutex"], job["offs"]["need_copy"])
+    port_box = {}
+    server_ready = threading.Event()
+    integ_done = threading.Event()
+
+    def start_server(retries):
+        for attempt in range(retries):
+            port_box["p"] = free_port()
+            sim.start_server(port=port_box["p"])
             if sim._server_data and sim._server_data.contents.ready == 1:
-                break
+                server_ready.set()
+                return True
             try:
                 sim.stop_server()
             except Exception:
                 pass
-            port = None
-        if port is None:
-            res["infra"] = "could not start the server on a free port"
-            json.dump(res, open("result.json", "w"))
-            return 3
-        sd = ctypes.cast(sim._server_data, ctypes.c_void_p).value
-        if shim:
-            shim.c19_register.argtypes = [ctypes.c_void_p, ctypes.c_void_p]
-            shim.c19_delays.argtypes = [ctypes.c_uint64, ctypes.c_uint, ctypes.c_uint]
-            shim.c19_count.restype = ctypes.c_long
-            shim.c19_len.restype = ctypes.c_long
-            shim.c19_delays(job["delay_seed"], job["delay_prob"], job["delay_max_us"])
-            shim.c19_set_integrator()
-            shim.c19_register(sd + job["offs"]["mutex"], sd + job["offs"]["need_copy"])
+        return False
+
     bodies, errors = [], []
     stop = threading.Event()
-    started = threading.Event()
     crng = SplitMix(job["delay_seed"] * 7919 + 13)
 
     def client():
-        started.wait()
         while not stop.is_set() and len(bodies) < job["max_bodies"]:
-            t = time.time()
+            port = port_box.get("p")
+            if port is None:
+                time.sleep(0.0002)
+                continue
+            was_ready = server_ready.is_set()
             try:
                 b = http_get(port, "/simulation")
             except OSError as e:
+                if not was_ready:           # nobody listens yet: the server is being started right now
+                    time.sleep(0.0002)
+                    continue
                 errors.append(repr(e))
                 break
-            bodies.append((t, b))
+            bodies.append((integ_done.is_set(), b))
             time.sleep(crng.uniform(0, job["client_sleep_ms"]) / 1000.0)
 
-    th = None
-    if port is not None and job["max_bodies"] > 0:
-        th = threading.Thread(target=client)
-        th.start()
-    idle_bodies = 0
+    def integrate_all():
+        if shim and use_server:
+            shim.c19_set_integrator()
+        for k, tmax in enumerate(sp["tmax"]):
+            if shim and use_server:
+                shim.c19_mark(0)
+            sim.integrate(tmax)
+            if shim and use_server:
+                shim.c19_mark(1)
+        integ_done.set()
+
+    th = threading.Thread(target=client) if (use_server and job["max_bodies"] > 0) else None
     t0 = time.time()
-    started.set()
-    finals = []
-    for k, tmax in enumerate(sp["tmax"]):
-        if shim and port is not None:
-            shim.c19_mark(0)
-        sim.integrate(tmax)
-        if shim and port is not None:
-            shim.c19_mark(1)
-        if job.get("idle_ms"):
-            time.sleep(job["idle_ms"] / 1000.0)
+    if not use_server:
+        integrate_all()
+    elif mode == "before":
+        if not start_server(6):
+            fail("could not start the server on a free port")
+        if th:
+            th.start()
+        integrate_all()
+    else:
+        if mode == "paused":
+            sim._status = -3                      # REB_STATUS_PAUSED: integrate() idles inside reb_check_exit
+        it = threading.Thread(target=integrate_all)
+        it.start()
+        if mode == "during" and th:
+            th.start()                            # the client is already knocking when the server comes up
+        time.sleep(job.get("start_delay_ms", 10.0) / 1000.0)
+        res["integ_done_before_start"] = integ_done.is_set()
+        if not start_server(1):
+            sim._status = -1
+            fail("could not start the server on a free port (late start)")
+        if mode == "paused":
+            if th:
+                th.start()
+            time.sleep(crng.uniform(0, 8.0) / 1000.0)
+            try:
+                http_get(port_box["p"], "/keyboard/32")    # space: resume (server.c:353-357)
+            except OSError as e:
+                sim._status = -1
+                fail("resume request failed: %r" % (e,))
+        it.join(120)
+        if it.is_alive():
+            fail("integration did not finish")
     wall = time.time() - t0
+    if mode != "before" and th and job.get("linger_ms"):
+        time.sleep(job["linger_ms"] / 1000.0)
     stop.set()
     if th:
         th.join(30)
         if th.is_alive():
-            res["infra"] = "client thread did not finish"
-            json.dump(res, open("result.json", "w"))
-            os._exit(3)
-    if shim and port is not None:
+            fail("client thread did not finish")
+    if shim and use_server:
         shim.c19_stop()
         shim.c19_dump(os.path.join(out, "trace.txt").encode())
         res["counts"] = {n: shim.c19_count(i) for i, n in enumerate(
             ["iEnter", "iChkBegin", "iChkSync", "iChkEnd1", "iChkEnd0", "iSpin", "iLock", "iStepBegin", "iStepEnd",
-             "iUnlock", "iEpiSync", "iLeave", "sLock", "sSerBegin", "sSerEnd", "sUnlock"])}
+             "iUnlock", "iEpiSync", "iLeave", "sLock", "sSerBegin", "sSerEnd", "sUnlock", "xStart"])}
         res["late_spins"] = shim.c19_count(-1)
         res["foreign_ser"] = shim.c19_count(-2)
-    if port is not None:
+    if use_server:
         sim.stop_server()
     with open("final.bin", "wb") as f:
         f.write(sim_bytes(rebound, sim))
-    for i, (t, b) in enumerate(bodies):
+    for i, (after, b) in enumerate(bodies):
         with open("body%04d.bin" % i, "wb") as f:
             f.write(b)
-    res.update(ok=True, nbodies=len(bodies), errors=errors, wall=wall, steps_done=int(sim.steps_done), t=sim.t)
+    res.update(ok=True, nbodies=len(bodies), errors=errors, wall=wall, steps_done=int(sim.steps_done), t=sim.t,
+               bodies_during_integration=sum(1 for after, b in bodies if not after))
     json.dump(res, open("result.json", "w"))
     return 0
 
@@ -384,6 +429,7 @@ def continue_to_end(rebound, fmt, b, sp, tmpdir, restore_dt=None):
     restore_dt: replay what the uninterrupted run does at the end of the call the snapshot was taken in
     (epilogue rebound.c:880-884: synchronize, dt = last_full_dt) — used to decide whether a mismatch is F18 only"""
     s = load_bytes(rebound, b, tmpdir)
+    s._status = -1          # a snapshot served while PAUSED carries status PAUSED (it is serialised); status is not compared
     sign = 1 if sp["dt"] > 0 else -1
     first = True
     for tmax in sp["tmax"]:
@@ -405,7 +451,7 @@ def continue_to_end(rebound, fmt, b, sp, tmpdir, restore_dt=None):
 MASK = ("status", "functionpointers")
 
 
-def analyse_bodies(c, rebound, fmt, sp, res, tmpdir, stats, tag):
+def analyse_bodies(c, rebound, fmt, sp, res, tmpdir, stats, tag, racy=None):
     """search (ii): every served body against the reference run"""
     out = res["out"]
     final0, _, _ = reference_run(rebound, fmt, sp, False)
@@ -429,6 +475,11 @@ def analyse_bodies(c, rebound, fmt, sp, res, tmpdir, stats, tag):
         window.add(e)
         window.add(e - 1)
     unsync = sp.get("safe", 1) == 0
+
+    def in_f19_window(n):
+        # racy = (verdict, n0): the model accepted the trace only with the server started inside an iteration that had not
+        # taken the mutex (step n0 -> n0+1); that step and the next one (after the bogus unlock) are unprotected
+        return racy is not None and racy[0] != "clean" and n is not None and racy[1] <= n <= racy[1] + 2
     for i in range(res["nbodies"]):
         b = open(os.path.join(out, "body%04d.bin" % i), "rb").read()
         stats["bodies"] += 1
@@ -449,7 +500,10 @@ def analyse_bodies(c, rebound, fmt, sp, res, tmpdir, stats, tag):
         if not cands or not any(cd[3] == t for cd in cands):
             stats["not_boundary"] += 1
             key = "served-snapshot-not-at-step-boundary"
-            if unsync and n in window:
+            if in_f19_window(n):
+                key = F19
+                stats["F19"] += 1
+            elif unsync and n in window:
                 key = F18B
             c.violation(key, "served snapshot (steps_done=%s, t=%r) is not a step boundary of the reference run (%s)"
                         % (n, t, sp["integ"]), brep)
@@ -467,7 +521,11 @@ def analyse_bodies(c, rebound, fmt, sp, res, tmpdir, stats, tag):
         dtlike = {"dt", "dt_last_done", "ri_sei.lastdt", "ri_sei.sindt", "ri_sei.tandt", "ri_sei.sindtz", "ri_sei.tandtz"}
         if not (exact or pro) and not set(best) <= dtlike:
             # not the state of any step boundary: do NOT try to continue it (a torn state can hang the Kepler solver, F14)
-            if unsync and n in window:
+            if in_f19_window(n):
+                stats["F19"] += 1
+                c.violation(F19, "server started while step %d was in progress: the served snapshot is the live mid-step state (%s): %s differ"
+                            % (racy[1], sp["integ"], best[:6]), dict(brep, vs_boundary=best[:8]))
+            elif unsync and n in window:
                 stats["F18b"] += 1
                 c.violation(F18B, "served snapshot taken while reb_check_exit/epilogue synchronised outside the mutex is torn (%s safe_mode=0): differs from the boundary state in %s"
                             % (sp["integ"], best[:6]), dict(brep, vs_boundary=best[:8]))
@@ -478,6 +536,8 @@ def analyse_bodies(c, rebound, fmt, sp, res, tmpdir, stats, tag):
                             % (n, ends, sp["integ"], best[:6]), dict(brep, vs_boundary=best[:8]))
             continue
         # continuation
+        if os.environ.get("C19_DEBUG"):
+            c.log("continue body", i, "n", n, "t", t, "dt", dt, "exact", exact, "pro", pro, "best", best[:5], "ends", ends)
         try:
             fin = fmt.canon(continue_to_end(rebound, fmt, b, sp, tmpdir), MASK)
         except Exception as e:
@@ -580,6 +640,25 @@ def scenarios(c):
     sp = dict(integ="whfast", N=1200 if not c.thorough else 2500, dt=0.01, seed=rng.randint(1, 10 ** 6), safe=0, mp=1e-9,
               tmax=[0.01 * (3 * (k + 1) + 0.5) for k in range(10)])
     S.append(("unsynchronised", sp, dict(max_bodies=16, client_sleep_ms=1.0, delay_prob=0, delay_max_us=0)))
+    # the server is started AFTER integrate() has been entered: (a) while the simulation idles PAUSED inside reb_check_exit and
+    # is then resumed with the space key, (b) from another thread at a random phase of the running loop
+    late = list(INTEGS)
+    rng.shuffle(late)
+    nl = len(late) if c.thorough else 3
+    for integ in late[:nl]:
+        sp = dict(integ=integ, N=sizes[integ], dt=dts[integ], seed=rng.randint(1, 10 ** 6), tmax=tm(integ, rng.randint(2, 4)))
+        S.append(("late-start-paused", sp, dict(max_bodies=14, client_sleep_ms=5.0, delay_prob=30, delay_max_us=1200, start="paused",
+                                                start_delay_ms=rng.uniform(3, 25), linger_ms=5)))
+    rng.shuffle(late)
+    for integ in late[:nl]:
+        sp = dict(integ=integ, N=sizes[integ], dt=dts[integ], seed=rng.randint(1, 10 ** 6), tmax=tm(integ, rng.randint(3, 5)))
+        S.append(("late-start-running", sp, dict(max_bodies=14, client_sleep_ms=5.0, delay_prob=30, delay_max_us=1200, start="during",
+                                                 start_delay_ms=rng.uniform(2, 45), linger_ms=5)))
+    # long steps (tens of ms): a server started at a random moment is almost surely started mid-step, and the knocking client is
+    # served within that step (finding F19 on the unchanged code)
+    sp = dict(integ="whfast", N=2000, dt=0.01, seed=rng.randint(1, 10 ** 6), mp=1e-9, tmax=[0.045, 0.085])
+    S.append(("late-start-mid-step", sp, dict(max_bodies=6, client_sleep_ms=2.0, delay_prob=0, delay_max_us=0, start="during",
+                                              start_delay_ms=rng.uniform(40, 110), linger_ms=5)))
     # no request at all: the trace of the integrator alone with the server thread idle
     sp = dict(integ="leapfrog", N=50, dt=0.01, seed=rng.randint(1, 10 ** 6), tmax=[0.205, 0.417])
     S.append(("no-requests", sp, dict(max_bodies=0, client_sleep_ms=1.0, delay_prob=0, delay_max_us=0)))
@@ -588,13 +667,14 @@ def scenarios(c):
 
 def server_part(c, d, rebound, fmt, exe, shim, offs, boost):
     stats = {k: 0 for k in ("bodies", "incomplete", "not_boundary", "boundary_exact", "boundary_prologue_variant", "load_fail",
-                            "continued_bitwise", "not_boundary_state", "F18a", "F18b", "not_continuable",
+                            "continued_bitwise", "not_boundary_state", "F18a", "F18b", "F19", "not_continuable", "during_integration",
                             "exact_but_save_load_not_continuable(C05)")}
     tmpdir = tempfile.mkdtemp(prefix="ld.", dir=d)
     S = scenarios(c)
     for _ in range((2 if boost else 0) + (7 if c.thorough else 0)):
         S = S + scenarios(c)
-    lines, metas = [], []
+    verdicts, metas = [], []
+    nracy = 0
     mutlines, mutmeta = [], []
     evhist = {}
     overlap = 0
@@ -638,18 +718,36 @@ def server_part(c, d, rebound, fmt, exe, shim, offs, boost):
                 hit = hit or inser
             elif t in ("iChkBegin", "iChkEnd1", "iChkEnd0", "iLeave"):
                 inadj = False
-        lines.append("A tr%d " % si + " ".join(toks))
+        line = "A tr%d " % si + " ".join(toks)
+        verdict = run_driver(exe, [line])
+        if len(verdict) != 1:
+            raise Infra("drv_c19 gave no verdict")
+        f = verdict[0].split()
+        racy = None
+        if len(f) >= 10 and f[1] == "ACCEPT":
+            n0 = 0
+            for t in toks:
+                if t == "xStart":
+                    break
+                n0 += t == "iStepEnd"
+            racy = (f[8], n0)
+            if f[8] != "clean":
+                nracy += 1
+        verdicts.append(verdict[0])
         metas.append((tag, sp, res, len(toks)))
         ntr += 1
+        stats["during_integration"] += res.get("bodies_during_integration", 0)
         c.count(("trace", tag, sp["integ"]), nontrivial=res["nbodies"] > 0)
-        for name, mt in mutants(toks, c.rng):
-            mutlines.append("A mu%d_%s " % (si, name) + " ".join(mt))
-            mutmeta.append((si, name))
+        if racy is not None and racy[0] == "clean":
+            for name, mt in mutants(toks, c.rng):
+                mutlines.append("A mu%d_%s " % (si, name) + " ".join(mt))
+                mutmeta.append((si, name))
         if si < 3:
             c.sample({"scenario": tag, "integrator": sp["integ"], "N": sp["N"], "events": len(toks), "bodies": res["nbodies"],
                       "steps": res["steps_done"], "trace_head": " ".join(toks[:40])})
-        analyse_bodies(c, rebound, fmt, sp, res, tmpdir, stats, tag)
-    got = run_driver(exe, lines + mutlines)
+        analyse_bodies(c, rebound, fmt, sp, res, tmpdir, stats, tag, racy)
+    got = verdicts + (run_driver(exe, mutlines) if mutlines else [])
+    lines = verdicts
     if len(got) != len(lines) + len(mutlines):
         raise Infra("drv_c19 returned %d lines for %d" % (len(got), len(lines) + len(mutlines)))
     accepted = 0
@@ -670,6 +768,10 @@ def server_part(c, d, rebound, fmt, exe, shim, offs, boost):
     c.cov["trace_event_histogram"] = evhist
     c.cov["trace_mutants_rejected"] = "%d/%d" % (mut_rej, len(mutlines))
     c.cov["serialisations_overlapping_unlocked_write_in_traces"] = overlap
+    c.cov["traces_with_server_started_inside_an_unlocked_iteration"] = nracy
+    c.cov["traces_by_scenario"] = {}
+    for tag, sp, res, n in metas:
+        c.cov["traces_by_scenario"][tag] = c.cov["traces_by_scenario"].get(tag, 0) + 1
     c.cov["served_bodies"] = stats
     for g, tag, sp in rejected[:1]:
         c.corr_break("a lock/step/serialise trace logged from the real library (%s, %s) is not an execution of the protocol model: %s"
